@@ -55,6 +55,8 @@ def gen_case(rng, tier, wrap=False):
     c = {'assets': assets, 'adjust': adjust, 'queries': queries, 'stream': 'random', 'wrap': wrap}
     if rng.random() < 0.5:
         c['cut_day'] = rng.choice(all_days)
+    if rng.random() < 0.3:
+        c['shared_dir'] = True
     if rng.random() < 0.4:
         c['tz'] = rng.choice(['Asia/Tokyo', 'America/New_York', 'Europe/Paris', 'Australia/Sydney', 'America/Los_Angeles'])
     return c
@@ -148,6 +150,11 @@ class C06(Prop):
                 j.failures.append('%s: source bid %s but ask / handler bid, ask, bid-ask, mid are %s' % (w, bid, flat))
             if len(j.failures) > 5 or len(j.disagreements) > 5:
                 return j
+        if 'answers_shared_dir' in impl:
+            for q, a0, a1 in zip(c['queries'], impl['answers'], impl['answers_shared_dir']):
+                if a0 != a1:
+                    j.failures.append('query %s: a second source object on a directory already read with the other adjustment setting answers %s instead of %s' % (q, a1[0], a0[0]))
+                    break
         if 'answers_tz' in impl:
             for q, a0, a1 in zip(c['queries'], impl['answers'], impl['answers_tz']):
                 if a0 != a1:
